@@ -284,6 +284,50 @@ type crashRec struct {
 	Stderr string
 	Kind   string // crash | watchdog
 	Free   bool
+	Start  int // first index of the worker generation that died
+	Stride int
+}
+
+// batchSpec replays a whole worker generation: needed when a crash depends on state that earlier runs
+// left in the process (a buffer pool of the library, a package-level cache).
+type batchSpec struct {
+	Start  int    `json:"start"`
+	Stride int    `json:"stride"`
+	Count  int    `json:"count"`
+	Free   bool   `json:"free"`
+	Tier   string `json:"tier"`
+}
+
+// runBatchOnce re-executes a batch of plans in one fresh process and returns its output and whether it died.
+func runBatchOnce(bin string, b batchSpec, timeout time.Duration) (string, bool) {
+	out := filepath.Join(work, "batch-replay.summary.json")
+	os.Remove(out)
+	args := []string{"-test.run", "^TestWorker$", "-test.timeout", "0", "-verif.mode=batch", "-verif.prop=" + prop, "-verif.tier=" + b.Tier,
+		"-verif.seed=" + strconv.FormatUint(seed, 10), "-verif.start=" + strconv.Itoa(b.Start), "-verif.stride=" + strconv.Itoa(b.Stride),
+		"-verif.count=" + strconv.Itoa(b.Count), "-verif.recheck=0", "-verif.out=" + out}
+	if b.Free {
+		args = append(args, "-verif.free")
+	}
+	cmd := exec.Command(bin, args...)
+	cmd.Env = workerEnv(b.Free)
+	cmd.Dir = work
+	var buf bytes.Buffer
+	cmd.Stdout = &buf
+	cmd.Stderr = &buf
+	if err := cmd.Start(); err != nil {
+		return err.Error(), false
+	}
+	done := make(chan error, 1)
+	go func() { done <- cmd.Wait() }()
+	select {
+	case <-done:
+	case <-time.After(timeout):
+		cmd.Process.Kill()
+		<-done
+		return tailStr(buf.String(), 60), false
+	}
+	_, err := os.Stat(out)
+	return tailStr(buf.String(), 120), err != nil
 }
 
 func (a *agg) merge(s *summary) {
@@ -394,7 +438,7 @@ func runBatch(bin string, a *agg, budget time.Duration, free bool, workers int, 
 				idx := lastStarted(journal)
 				lb, _ := os.ReadFile(logf)
 				a.mu.Lock()
-				a.crashes = append(a.crashes, crashRec{Index: idx, Stderr: tailStr(string(lb), 120), Kind: kind, Free: free})
+				a.crashes = append(a.crashes, crashRec{Index: idx, Stderr: tailStr(string(lb), 120), Kind: kind, Free: free, Start: next, Stride: workers})
 				ncr := len(a.crashes)
 				a.mu.Unlock()
 				if idx < 0 || ncr > 12 {
@@ -640,6 +684,7 @@ func matchKnown(k []knownFinding, class string) *knownFinding {
 }
 
 type replayFile struct {
+	Batch         *batchSpec     `json:"batch,omitempty"`
 	Property      string         `json:"property"`
 	Class         string         `json:"class"`
 	Violation     *violation     `json:"violation,omitempty"`
@@ -713,6 +758,22 @@ func replay(path string) int {
 	var rf replayFile
 	if err := unmarshal(b, &rf); err != nil || rf.Plan == nil {
 		fatal2("replay file does not parse: %v", err)
+	}
+	if rf.Batch != nil {
+		tier = rf.Batch.Tier
+		if rf.VerifSeed != 0 {
+			seed = rf.VerifSeed
+		}
+		bin := build(rf.Batch.Free)
+		out, died := runBatchOnce(bin, *rf.Batch, 1800*time.Second)
+		if died {
+			cc := crashClass(out)
+			fmt.Println(tailStr(out, 40))
+			fmt.Printf("reproduced (batch of %d plans in one process): %s\nVIOLATION property=%s replay=%s\n", rf.Batch.Count, cc, prop, path)
+			return 1
+		}
+		fmt.Printf("replay of %s: the batch of %d plans completes (recorded class %q does not occur on this tree)\n", path, rf.Batch.Count, rf.Class)
+		return 0
 	}
 	free, _ := rf.Plan["free"].(bool)
 	bin := build(free)
@@ -830,10 +891,10 @@ func check() int {
 			budget = time.Duration(f * float64(time.Second))
 		}
 	}
-	hasRace := prop == "C11" || prop == "C12" || prop == "C13" || prop == "C19"
+	hasRace := prop == "C08" || prop == "C11" || prop == "C12" || prop == "C13" || prop == "C19"
 	if hasRace {
 		raceBudget = budget / 3
-		if prop == "C11" || prop == "C19" {
+		if prop == "C11" || prop == "C19" || prop == "C08" {
 			raceBudget = budget / 5
 		}
 		if v := os.Getenv("VERIF_RACE_BUDGET_S"); v != "" {
@@ -860,7 +921,11 @@ func check() int {
 		if rw < 1 {
 			rw = 1
 		}
-		runBatch(raceBin, fa, raceBudget, true, rw, 150, 0)
+		recycle := 150
+		if prop == "C08" {
+			recycle = 20 // process-wide decoder caches are filled on first use: fresh processes matter here
+		}
+		runBatch(raceBin, fa, raceBudget, true, rw, recycle, 0)
 	}
 	if a.runs == 0 {
 		fatal2("no run completed (see %s)", work)
@@ -881,6 +946,7 @@ func check() int {
 		crash string
 		free  bool
 		count int
+		batch *batchSpec
 	}
 	byClass := map[string]*finding{}
 	var order []string
@@ -961,6 +1027,20 @@ func check() int {
 					add(r.Violations[0].Class, plan, r, "", c.Free)
 				}
 			}
+			if !reproduced && c.Kind == "crash" && c.Stride > 0 {
+				// the crash may depend on what earlier runs left in the process: replay the whole generation
+				spec := batchSpec{Start: c.Start, Stride: c.Stride, Count: (c.Index-c.Start)/c.Stride + 1, Free: c.Free, Tier: tier}
+				if out, died := runBatchOnce(b, spec, 900*time.Second); died {
+					if cc := crashClass(out); cc != "harness-race" {
+						var plan map[string]any
+						pb, _ := os.ReadFile(pf)
+						unmarshal(pb, &plan)
+						add(cc, plan, nil, out, c.Free)
+						byClass[cc].batch = &spec
+						reproduced = true
+					}
+				}
+			}
 			if !reproduced {
 				trouble++
 				fmt.Fprintf(os.Stderr, "worker %s at plan %d did not reproduce when run alone:\n%s\n", c.Kind, c.Index, tailStr(c.Stderr, 30))
@@ -1014,14 +1094,14 @@ func check() int {
 		plan := f.plan
 		cands := 0
 		minimised := false
-		if ci < 4 && !f.free {
+		if ci < 4 && !f.free && f.batch == nil {
 			mp, n := minimise(b, plan, class, 90*time.Second)
 			cands = n
 			if n > 1 {
 				plan, minimised = mp, true
 			}
 		}
-		rf := replayFile{Property: prop, Class: class, Plan: plan, Minimised: minimised, Candidates: cands, OriginalIndex: idx(f.plan), VerifSeed: seed, CrashOutput: tailStr(f.crash, 60)}
+		rf := replayFile{Batch: f.batch, Property: prop, Class: class, Plan: plan, Minimised: minimised, Candidates: cands, OriginalIndex: idx(f.plan), VerifSeed: seed, CrashOutput: tailStr(f.crash, 60)}
 		if f.res != nil && len(f.res.Violations) > 0 {
 			v := f.res.Violations[0]
 			rf.Violation = &v
@@ -1060,7 +1140,9 @@ func check() int {
 			}
 			return false
 		}
-		if !confirm(plan) {
+		if f.batch != nil {
+			// already reproduced as a batch; a single plan does not show it
+		} else if !confirm(plan) {
 			if minimised && confirm(f.plan) {
 				rf.Plan, rf.Minimised = f.plan, false
 			} else {
